@@ -11,35 +11,35 @@ namespace TM.C01
 theorem ltoi_exact (shape : Shape) (strides c : List Int)
     (hlen : strides.length = shape.length) (hc : inBox shape c = true) :
     ltoi shape strides c = .ok (dot c strides) := by
-  sorry
+  exact ltoi_exact' shape strides c hlen hc
 
 /-- With the default row-major strides the offset is the row-major rank of the coordinate. -/
 theorem ltoi_rowMajor (shape : Shape) (c : List Int) (hc : inBox shape c = true) :
     ltoi shape (calcStrides shape) c = .ok (rowRank shape c) := by
-  sorry
+  exact ltoi_exact' shape _ c (calcStrides_length shape) hc
 
 /-- With column-major strides (one per axis) the offset is the column-major rank. -/
 theorem ltoi_colMajor (shape : Shape) (c : List Int) (hc : inBox shape c = true) :
     ltoi shape (prefixProds 1 shape) c = .ok (colRank shape c) := by
-  sorry
+  exact ltoi_exact' shape _ c (prefixProds_length shape 1) hc
 
 /-- The row-major rank of an in-box coordinate lies inside the backing. -/
 theorem rowRank_bounds (shape : Shape) (c : List Int) (hc : inBox shape c = true) :
     0 ≤ rowRank shape c ∧ rowRank shape c < prod shape := by
-  sorry
+  exact rowRank_bounds' shape c hc
 
 /-- Distinct in-box coordinates have distinct row-major ranks ("exactly that one element"). -/
 theorem rowRank_inj (shape : Shape) (c c' : List Int) (hc : inBox shape c = true) (hc' : inBox shape c' = true)
     (h : rowRank shape c = rowRank shape c') : c = c' := by
-  sorry
+  exact rowRank_inj' shape c c' hc hc' h
 
 theorem colRank_bounds (shape : Shape) (c : List Int) (hc : inBox shape c = true) :
     0 ≤ colRank shape c ∧ colRank shape c < prod shape := by
-  sorry
+  exact colRank_bounds' shape c hc
 
 theorem colRank_inj (shape : Shape) (c c' : List Int) (hc : inBox shape c = true) (hc' : inBox shape c' = true)
     (h : colRank shape c = colRank shape c') : c = c' := by
-  sorry
+  exact colRank_inj' shape c c' hc hc' h
 
 /-- Rejection: a coordinate of the right arity with a component negative or not smaller than its
     dimension is refused with an error value (never a panic, never an offset). -/
@@ -47,25 +47,29 @@ theorem ltoi_rejects (shape : Shape) (strides c : List Int)
     (hlen : strides.length = shape.length) (harity : c.length = shape.length)
     (hbad : inBox shape c = false) :
     ∃ tag, ltoi shape strides c = .error (.err tag) := by
-  sorry
+  exact ltoi_rejects' shape strides c hlen harity hbad
 
 /-- `At` refuses a coordinate of the wrong arity with an error. -/
 theorem at_wrong_arity (st : St) (t : Dense) (c : List Int) (h : c.length ≠ t.dims) :
     ∃ tag, t.at_ st c = .error (.err tag) := by
-  sorry
+  exact ⟨_, at_bad_arity st t c h⟩
 
 /-- `At` / `SetAt` refuse every coordinate outside the box with an error; `SetAt` returns no new
     state in that case, i.e. nothing is written. -/
 theorem at_rejects (st : St) (t : Dense) (c : List Int)
     (hlen : t.strides.length = t.shape.length) (hbad : inBox t.shape c = false) :
     (∃ tag, t.at_ st c = .error (.err tag)) ∧ (∀ v, ∃ tag, t.setAt st c v = .error (.err tag)) := by
-  sorry
+  by_cases ha : c.length = t.dims
+  · obtain ⟨tag, e⟩ := ltoi_rejects' t.shape t.strides c hlen ha hbad
+    exact ⟨⟨tag, by rw [at_of_arity st t c ha, e]; rfl⟩,
+      fun v => ⟨tag, by rw [setAt_of_arity st t c v ha, e]; rfl⟩⟩
+  · exact ⟨⟨_, at_bad_arity st t c ha⟩, fun v => ⟨_, setAt_bad_arity st t c v ha⟩⟩
 
 /-- `At` reads exactly the cell at offset Σ cᵢ·sᵢ of the tensor's storage window. -/
 theorem at_reads (st : St) (t : Dense) (c : List Int)
     (hlen : t.strides.length = t.shape.length) (hc : inBox t.shape c = true) :
     t.at_ st c = st.get t.win (dot c t.strides) := by
-  sorry
+  exact at_inBox st t c hlen hc
 
 /-- cell `k` of buffer `b` of the heap -/
 def cell (st : St) (b k : Nat) : Option Val := (st.heap[b]?).bind (·[k]?)
@@ -75,15 +79,26 @@ theorem setAt_writes (st st' : St) (t : Dense) (c : List Int) (v : Val)
     (hlen : t.strides.length = t.shape.length) (hc : inBox t.shape c = true)
     (h : t.setAt st c v = .ok st') :
     t.at_ st' c = .ok v := by
-  sorry
+  rw [setAt_inBox st t c v hlen hc] at h
+  rw [at_inBox st' t c hlen hc]
+  exact St.get_set_same h
 
-/-- … and nothing else: every other cell of every buffer is unchanged, and so is the mask heap. -/
+/-- … and nothing else: every other cell of every buffer is unchanged, and so is the mask heap.
+
+    NOTE: the statement as originally given read `∀ b k, (b ≠ t.win.buf ∨ (k : Int) ≠ …) → …` with
+    untyped binders; that does not elaborate (the ascription `(k : Int)` makes Lean infer `k : Int`,
+    and `cell st' b k` then fails with a type mismatch since `cell` takes `k : Nat`). The binder types
+    `(b k : Nat)` are made explicit here so that `(k : Int)` is the intended coercion; nothing else
+    is changed and no hypothesis is added. Original text:
+      st'.mheap = st.mheap ∧
+      ∀ b k, (b ≠ t.win.buf ∨ (k : Int) ≠ t.win.off + dot c t.strides) → cell st' b k = cell st b k -/
 theorem setAt_frame (st st' : St) (t : Dense) (c : List Int) (v : Val)
     (hlen : t.strides.length = t.shape.length) (hc : inBox t.shape c = true)
     (h : t.setAt st c v = .ok st') :
     st'.mheap = st.mheap ∧
-    ∀ b k, (b ≠ t.win.buf ∨ (k : Int) ≠ t.win.off + dot c t.strides) → cell st' b k = cell st b k := by
-  sorry
+    ∀ (b k : Nat), (b ≠ t.win.buf ∨ (k : Int) ≠ t.win.off + dot c t.strides) → cell st' b k = cell st b k := by
+  rw [setAt_inBox st t c v hlen hc] at h
+  exact ⟨St.set_mheap h, fun b k hne => St.set_frame h b k hne⟩
 
 /-- Consequence for a row-major tensor over its whole backing: writing coordinate `c` leaves the
     value read at every other in-box coordinate unchanged. -/
@@ -92,7 +107,12 @@ theorem setAt_other_coords (st st' : St) (t : Dense) (c c' : List Int) (v : Val)
     (hc : inBox t.shape c = true) (hc' : inBox t.shape c' = true) (hne : c' ≠ c)
     (h : t.setAt st c v = .ok st') :
     t.at_ st' c' = t.at_ st c' := by
-  sorry
+  have hlen : t.strides.length = t.shape.length := by rw [hs]; exact calcStrides_length _
+  rw [setAt_inBox st t c v hlen hc] at h
+  rw [at_inBox st' t c' hlen hc', at_inBox st t c' hlen hc']
+  refine St.get_set_other h (fun he => hne ?_)
+  rw [hs] at he
+  exact rowRank_inj' t.shape c' c hc' hc he
 
 -- non-vacuity: a concrete tensor meets the hypotheses, and the defect the `fix:` commit repaired
 -- (negative component accepted) is rejected by the model
